@@ -1,2 +1,3 @@
+@strict.setter
 def spec(self, value):
     self.__strict = bool(value)
